@@ -61,7 +61,7 @@ type vC18KV struct {
 
 type vC18Profile struct {
 	Name         string   `json:"name"`
-	CPU          string   `json:"cpu"`     // literal: "100m", "0.57", "2"
+	CPU          string   `json:"cpu"` // literal: "100m", "0.57", "2"
 	CPUArch      string   `json:"cpu_arch,omitempty"`
 	Memory       string   `json:"memory"`  // literal: "128Mi", "0.5G", "134217728"
 	Storage      string   `json:"storage"` // literal
@@ -293,7 +293,7 @@ func vC18GenSize(rng *vs.Rand, suffix string, lo, hi int64, wantDecimal bool) (s
 		}
 		v := vC18LogUniform(rng, vlo, vhi)
 		text := vC18TrimDecimal(new(big.Rat).SetFrac(v, den).FloatString(d))
-		if len(text) > 24 {
+		if len(text) > 44 {
 			continue
 		}
 		if wantDecimal && !vC18IsDecimalLiteral(text) && maxDigits > 0 && attempt < 6 {
@@ -413,7 +413,8 @@ func vC18RandAddr(rng *vs.Rand) string {
 
 func vC18RandSize(rng *vs.Rand, lo, hi int64) string {
 	for {
-		suffix := vC18Suffixes[rng.Intn(len(vC18Suffixes))]
+		// the common suffixes more often than the exotic ones
+		suffix := vC18Suffixes[rng.Pick([]int{2, 2, 2, 4, 8, 4, 8, 2, 2, 1, 1, 1, 1})]
 		if s, ok := vC18GenSize(rng, suffix, lo, hi, rng.Chance(1, 4)); ok {
 			return s
 		}
@@ -671,7 +672,7 @@ func vC18RandDocOnce(rng *vs.Rand) *vC18Doc {
 		}
 		base := int64(rng.Range(1, 2000))
 		if rng.Chance(1, 20) {
-			base = vC18Lim.MaxPrice - int64(nprof)
+			base = vC18Lim.MaxPrice - 50*int64(nprof)
 		}
 		for i, prof := range profNames {
 			needed := false
@@ -961,43 +962,20 @@ func vC18Render(d *vC18Doc, rng *vs.Rand, k int) (string, []string) {
 // structural shape (abstraction key) and coverage classes
 
 func vC18Shape(d *vC18Doc) string {
-	var parts []string
+	nx, nto := 0, 0
 	for _, s := range d.Services {
-		nto, nacc := 0, 0
+		nx += len(s.Expose)
 		for _, e := range s.Expose {
 			nto += len(e.To)
-			if len(e.Accept) > 0 {
-				nacc++
-			}
 		}
-		np := 0
-		for _, dep := range d.Deploy {
-			if dep.Service == s.Name {
-				np++
-			}
+	}
+	var cl []string
+	for _, c := range vC18Classes(d) {
+		if !strings.Contains(c, "suffix:") {
+			cl = append(cl, c)
 		}
-		parts = append(parts, fmt.Sprintf("c%v a%v e%v x%d t%d h%d p%d", len(s.Command) > 0, len(s.Args) > 0, len(s.Env) > 0, len(s.Expose), nto, nacc, np))
 	}
-	sort.Strings(parts)
-	var pl []string
-	for _, p := range d.Placements {
-		pl = append(pl, fmt.Sprintf("a%d s%v/%d/%d $%d", len(p.Attrs), p.HasSignedBy, len(p.AllOf), len(p.AnyOf), len(p.Pricing)))
-	}
-	sort.Strings(pl)
-	var pr []string
-	for _, p := range d.Profiles {
-		_, ms := vC18SplitSize(p.Memory)
-		_, ss := vC18SplitSize(p.Storage)
-		form := "int"
-		if strings.HasSuffix(p.CPU, "m") {
-			form = "milli"
-		} else if vC18IsDecimalLiteral(p.CPU) {
-			form = "dec"
-		}
-		pr = append(pr, fmt.Sprintf("%s m%s%v s%s%v a%v/%d", form, ms, vC18IsDecimalLiteral(p.Memory), ss, vC18IsDecimalLiteral(p.Storage), p.CPUArch != "", len(p.StorageAttrs)))
-	}
-	sort.Strings(pr)
-	return fmt.Sprintf("S%d P%d L%d|%s|%s|%s", len(d.Services), len(d.Profiles), len(d.Placements), strings.Join(parts, ";"), strings.Join(pl, ";"), strings.Join(pr, ";"))
+	return fmt.Sprintf("S%d P%d L%d D%d X%d T%d|%s", len(d.Services), len(d.Profiles), len(d.Placements), len(d.Deploy), nx, nto, strings.Join(cl, ","))
 }
 
 // vC18Classes lists the coverage classes a description belongs to.
